@@ -21,6 +21,76 @@ from multiprocessing.connection import Pipe, wait
 from .core import HarnessError
 
 CONTEXT = {}
+BASE = None             # directory of this vcheck invocation that holds the private directories of its job children
+SANDBOX = None          # private directory of the current job child (cwd, HOME, TMPDIR live in it)
+OUTSIDE_WRITES = []     # files opened for writing outside SANDBOX by the code under simulation (diagnostic)
+_SANDBOX_ENV = ("HOME", "XDG_CACHE_HOME", "XDG_CONFIG_HOME", "XDG_DATA_HOME", "TMPDIR", "TEMP", "TMP")
+
+
+def _enter_sandbox():
+    """The file system seam: every job child (simulated run or pristine execution) gets an empty private directory as its
+    working directory, HOME and temp dir, so that files are part of the run's own history - a cache file written by one call
+    is seen by the later calls of the same run and by nothing else - and nothing lands in /verif."""
+    global SANDBOX
+    import tempfile
+
+    d = os.path.join(BASE, "run-%d" % os.getpid()) if BASE else tempfile.mkdtemp(prefix="verif-run-")
+    os.makedirs(d, exist_ok=True)
+    for sub in ("home", "tmp", "cwd"):
+        os.mkdir(os.path.join(d, sub))
+    home = os.path.join(d, "home")
+    os.environ.update(HOME=home, XDG_CACHE_HOME=os.path.join(home, ".cache"), XDG_CONFIG_HOME=os.path.join(home, ".config"),
+                      XDG_DATA_HOME=os.path.join(home, ".local", "share"), TMPDIR=os.path.join(d, "tmp"),
+                      TEMP=os.path.join(d, "tmp"), TMP=os.path.join(d, "tmp"))
+    tempfile.tempdir = None
+    os.chdir(os.path.join(d, "cwd"))
+    SANDBOX = d
+    wr = os.O_WRONLY | os.O_RDWR | os.O_CREAT | os.O_APPEND | os.O_TRUNC
+
+    def hook(event, args):
+        if event == "open" and SANDBOX is not None:
+            path, mode, flags = (tuple(args) + (None, None, None))[:3]
+            if isinstance(path, (str, bytes)) and ((isinstance(flags, int) and flags & wr) or (isinstance(mode, str) and set(mode) & set("wax+"))):
+                q = os.path.abspath(os.fsdecode(path))
+                if not q.startswith(SANDBOX) and not q.startswith("/dev/") and len(OUTSIDE_WRITES) < 20:
+                    OUTSIDE_WRITES.append(q)
+
+    sys.addaudithook(hook)
+    return d
+
+
+def sandbox_listing():
+    """Relative path -> size of every file in the job's private directory (deterministic order)."""
+    out = {}
+    if SANDBOX is None:
+        return out
+    for root, dirs, files in os.walk(SANDBOX):
+        dirs.sort()
+        for f in sorted(files):
+            q = os.path.join(root, f)
+            try:
+                out[os.path.relpath(q, SANDBOX)] = os.path.getsize(q)
+            except OSError:
+                pass
+    return out
+
+
+def sandbox_environ():
+    """os.environ without the entries that name the private directory itself."""
+    return {k: v for k, v in os.environ.items() if k not in _SANDBOX_ENV}
+
+
+def _leave_sandbox():
+    global SANDBOX
+    import shutil
+
+    d, SANDBOX = SANDBOX, None
+    if d:
+        try:
+            os.chdir("/")
+        except OSError:
+            pass
+        shutil.rmtree(d, ignore_errors=True)
 
 
 def _normalise_process_state():
@@ -39,6 +109,7 @@ def _job_child(conn, handler, job, timeout):
         faulthandler.enable()
         faulthandler.dump_traceback_later(max(1.0, timeout - 1.0), exit=False)
         _normalise_process_state()
+        _enter_sandbox()
         try:
             res = handler(job, CONTEXT)
         except HarnessError as e:
@@ -46,6 +117,15 @@ def _job_child(conn, handler, job, timeout):
         except BaseException as e:  # a bug in the harness, not in pyrepseq
             res = {"harness_error": "%s: %s" % (type(e).__name__, e), "tb": traceback.format_exc()}
         faulthandler.cancel_dump_traceback_later()
+        try:
+            if isinstance(res, dict):
+                files = sandbox_listing()
+                if files:
+                    res["files_left"] = sorted(files)[:20]
+                if OUTSIDE_WRITES:
+                    res["outside_writes"] = sorted(set(OUTSIDE_WRITES))
+        except Exception:
+            pass
         try:
             from . import simpool
 
@@ -56,6 +136,7 @@ def _job_child(conn, handler, job, timeout):
             pass
         conn.send(res)
         conn.close()
+        _leave_sandbox()
     except BaseException:
         code = 3
         try:
@@ -119,6 +200,10 @@ def _zygote_loop(conn, handler):
                     res["exit"] = status
             except ChildProcessError:
                 pass
+            if BASE:  # a job child that was killed could not remove its private directory itself
+                import shutil
+
+                shutil.rmtree(os.path.join(BASE, "run-%d" % pid), ignore_errors=True)
             conn.send((jid, res))
     except BaseException:
         traceback.print_exc()
@@ -128,6 +213,14 @@ def _zygote_loop(conn, handler):
 
 class Farm:
     def __init__(self, handler, workers):
+        global BASE
+        if BASE is None:
+            import atexit
+            import shutil
+            import tempfile
+
+            BASE = tempfile.mkdtemp(prefix="verif-")
+            atexit.register(lambda b=BASE, p=os.getpid(): shutil.rmtree(b, ignore_errors=True) if os.getpid() == p else None)
         self.handler = handler
         self.workers = workers
         self.z = []  # (pid, conn)
